@@ -318,7 +318,7 @@ def r6(run, db):
             # (the channel's own refusal, written out in the body, hands back what its send() returned in Err: see C02.R2)
             from_chan = lambda r: r["k"] == "call" and r["call"].matches(r"UnboundedSender::<T>::send$") and any(e.startswith("d:1") for e in r.get("proj", []))
             run.check(all((r["k"] == "arg" and r["local"] == 2) or from_chan(r) for r in roots) and roots, key + "|handback", "SendErr carries the original message parameter", "SendErr carries something other than the message parameter", f.where(s.get("l")))
-        run.anchor(key + " SendErr constructions", n, 2, f.where())
+        run.anchor(key + " SendErr constructions", n, 1, f.where())        # one per refusal, or one shared by the refusals
         adms = f.calls_to(adm.admit[0].id)
         if adms:
             errs = [site for site, s in f.aggregates(adt="MessagingErr", variant="SendErr")]
@@ -329,8 +329,30 @@ def r6(run, db):
                 gs = status_gates_at(f, e)
                 if gs and set(admitted_statuses(gs)) <= {"Draining", "Stopping", "Stopped"}:
                     okg = True
+            if not okg:
+                # one refusal shared by both gates: every path from a refusing status edge builds SendErr(message) before the
+                # function returns (and does not reach the enqueue)
+                late = {"Draining", "Stopping", "Stopped"}
+                for t_ in status_tests(f):
+                    if not any(r["k"] == "call" and (r["call"].is_("get_status")) for r in t_["subject"]):
+                        continue
+                    for edge_, pol in ((t_["true_edge"], True), (t_["false_edge"], False)):
+                        if not edge_:
+                            continue
+                        adm_ = set(v for v in STATUS_ORDER if status_sat(t_["op"], t_["const"], v) == pol)
+                        if adm_ and adm_ <= late and all_paths_from_edge_pass(f, edge_, errs):
+                            okg = True
             run.check(okg, key + "|gate->SendErr", "the refusing edge of the status gate builds SendErr(message)", "a refused send (status) does not hand the message back", f.where())
-            run.check(ne and any(f.edge_dominates(ne, e) for e in errs), key + "|closed->SendErr", "refused admission -> SendErr(message)", "a refused send (closed admission) does not hand the message back", f.where())
+            okc = bool(ne and any(f.edge_dominates(ne, e) for e in errs))
+            if not okc:
+                # the admission's refusal may have been merged with the status refusal into one Option: every path from the
+                # refusing edge of the admission builds SendErr(message)
+                ne2 = ne
+                if ne2 is None:
+                    tb_ = [b_ for b_ in try_branches_on(f, adms[0]) if b_.get("break_edge")]
+                    ne2 = tb_[0]["break_edge"] if len(tb_) == 1 else None
+                okc = bool(ne2 and all_paths_from_edge_pass(f, ne2, errs))
+            run.check(okc, key + "|closed->SendErr", "refused admission -> SendErr(message)", "a refused send (closed admission) does not hand the message back", f.where())
     m = model(db)
     for rt in m.runtimes():
         pb = m.proc_body(rt)
